@@ -146,9 +146,13 @@ def pre_state(root):
     paths with several entries in one Manifest file, and whether some Manifest is
     referenced from a Manifest in its own directory."""
     mans, _ = update_post.reachable_manifests(root, 'Manifest')
+    # (duplicates also count in Manifests that are not referenced yet: the update
+    # may register them)
+    from vf.checks import c10
+    allmans = c10.manifest_state(root)
     dup_paths = set()
     same_dir_chain = False
-    for mp, ents in mans.items():
+    for mp, ents in allmans.items():
         mdir = os.path.dirname(mp)
         seen = {}
         for e in ents:
@@ -170,7 +174,7 @@ def pre_state(root):
                         mmatch.check_file(root, full, e['size'], e['sums']) is not None:
                     stale.add(full)
     return {'dup_paths': dup_paths, 'same_dir_chain': same_dir_chain, 'stale': stale,
-            'dup_manifests': sorted(p for p in dup_paths if p in mans),
+            'dup_manifests': sorted(p for p in dup_paths if p in allmans),
             'data_listed_dirs': data_listed_dirs(root, mans)}
 
 
@@ -246,6 +250,14 @@ def label(finding, pre, scope='', root=None, profile=None):
     return kind
 
 
+def has_dir_symlink(root):
+    for dp, dn, fn in os.walk(root):
+        for d in dn:
+            if os.path.islink(os.path.join(dp, d)):
+                return True
+    return False
+
+
 def crowded_dirs(root):
     """Directories holding more than one file with a Manifest name (Manifest,
     Manifest.gz, ...): which of them is 'the' Manifest, and what recompression
@@ -276,6 +288,11 @@ def judge_round(ctx, root, case, rnd, opt, loader=None, keep=None):
         ctx.unconstrained('several Manifest-named files in one directory, or a '
                           'Manifest aliased through a directory symlink (U14/U15)')
         return False        # whatever came out of it taints the later rounds
+    if profile_of(opt) and has_dir_symlink(root):
+        ctx.case(sig=('c03-profile-alias',), case=case, nontrivial=False, klass='crowded')
+        ctx.unconstrained('a profile may create a Manifest in a directory that is also '
+                          'visible through a directory symlink (aliased Manifest, U15)')
+        return False
     prior = tuple(sorted(r['class'] for r in case['mutations']))
     ctx.case(sig=('c03', prior[:3], opt['api'], opt['scope'] != '', opt['force'],
                   opt['sort'], opt['watermark'] is not None, rnd, kind),
